@@ -200,3 +200,27 @@ func RandIndexList(r *cq.RNG, n int) []int {
 	}
 	return out
 }
+
+// RandOp draws one call the way RandHistory does; shadow is a scratch instance
+// in the same state as the instance under test (only the scratch instance is
+// read to make the choice), n its channel count.
+func RandOp(r *cq.RNG, cfg Config, shadow band.Band, n int, extra bool) Op {
+	c := r.Intn(10)
+	switch {
+	case c < 4:
+		mn, mx := RandDR(r), RandDR(r)
+		if r.Intn(2) == 0 {
+			mn, mx = 0, 5
+			if cfg.Name == band.ISM2400 && r.Intn(2) == 0 {
+				mx = 7
+			}
+		}
+		if !extra && r.Intn(4) != 0 {
+			return Disable(RandIndex(r, n))
+		}
+		return Add(RandFreq(r, Uplinks(shadow)), mn, mx)
+	case c < 8:
+		return Disable(RandIndex(r, n))
+	}
+	return Enable(RandIndex(r, n))
+}
